@@ -119,7 +119,11 @@ def oracle_gmm(c):
             (f", 1-d layout {c['layout_1d']}" if d == 1 else "") + ")"
     try:
         X, y = D.draw_gmm(n, loc, scale, np.array(c["pvals"]), random_state=c["seed"])
-        X2, y2 = D.draw_gmm(n, loc, scale, np.array(c["pvals"]), random_state=c["seed"])
+        if c["seed"] % 3 == 0:
+            # array-likes are documented: the same parameters as nested lists / tuples / float32-free integer means
+            X2, y2 = D.draw_gmm(n, np.asarray(loc).tolist(), tuple(np.asarray(scale).tolist()), list(c["pvals"]), random_state=c["seed"])
+        else:
+            X2, y2 = D.draw_gmm(n, loc, scale, np.array(c["pvals"]), random_state=c["seed"])
     except Exception as e:
         raise Violation(f"{label}: raised {type(e).__name__}: {e} on a valid mixture")
     if X.shape != (n, d) or y.shape != (n,):
@@ -211,7 +215,7 @@ def oracle_student(c):
     S = A @ A.T + 0.2 * np.eye(d)
     label = f"multivariate_student_t(n={c['n']}, d={d}, df={c['df']})"
     X = D.multivariate_student_t(c["n"], loc, S, df=c["df"], random_state=c["seed"])
-    X2 = D.multivariate_student_t(c["n"], loc, S, df=c["df"], random_state=c["seed"])
+    X2 = D.multivariate_student_t(c["n"], loc.tolist() if c["seed"] % 2 else loc, S.tolist() if c["seed"] % 3 == 0 else S, df=c["df"], random_state=c["seed"])
     if X.shape != (c["n"], d):
         raise Violation(f"{label}: shape {X.shape}")
     if not np.array_equal(X, X2):
